@@ -108,6 +108,36 @@ def outcome_of(api, fn):
 LIMIT_DELTA = [0]
 
 
+def interp_state():
+    """Interpreter-global settings a library call has no business leaving
+    changed (the recursion limit is tracked separately)."""
+    import gc as _gc
+    import locale
+    import os
+    import signal
+    import threading
+    try:
+        loc = locale.setlocale(locale.LC_CTYPE)
+    except Exception:                            # noqa
+        loc = None
+    try:
+        sigint = repr(signal.getsignal(signal.SIGINT))
+    except Exception:                            # noqa
+        sigint = None
+    return {'gc_enabled': _gc.isenabled(), 'gc_threshold':
+            list(_gc.get_threshold()), 'gc_frozen': _gc.get_freeze_count(),
+            'switchinterval': sys.getswitchinterval(), 'cwd': os.getcwd(),
+            'locale_ctype': loc, 'sigint': sigint,
+            'threads': threading.active_count(),
+            'stdout_id': id(sys.stdout), 'stderr_id': id(sys.stderr),
+            'excepthook': repr(sys.excepthook),
+            'int_max_str_digits': sys.get_int_max_str_digits()}
+
+
+def state_diff(a, b):
+    return {k: [a[k], b[k]] for k in a if a[k] != b.get(k)}
+
+
 def call_with_headroom(fn, H, P):
     """Call fn() with only ~H Python frames of stack left, after P frames of
     padding recursion (so the same head-room is realised at different
